@@ -85,6 +85,72 @@ Theorem C12_models_mirror : forall (Sg T : Type) (dS : Sg) (dT : T) (dfs : list 
 Proof. exact @models3d_spec. Qed.
 Print Assumptions C12_models_mirror.
 
+(* BycycleGroup.fit on an object that was fitted before (any number of times, 2-D or 3-D arrays of any
+   other shape, any axis): the fit REPLACES df_features and models *)
+Theorem C12_refit_replaces_tables_and_models : forall (K Sg T : Type) (cf : K -> Sg -> T)
+  (epochs : K -> list Sg -> list T) (dK : K) (dS : Sg) (dT : T)
+  (o : gobj) (fits : list gfit) (f : gfit),
+  gobj_run cf epochs dK dS dT o (fits ++ [f]) = gobj_fit cf epochs dK dS dT Unfitted f.
+Proof. exact @gobj_refit_replaces. Qed.
+Print Assumptions C12_refit_replaces_tables_and_models.
+
+(* ... so that after ANY sequence of fits df_features and models have the LAST array's first two
+   dimensions and its contents: n0 rows of n1 tables / models, model [i][j] = (table [i][j], signal [i,j]) *)
+Theorem C12_object_after_any_fits_axis01 : forall (K Sg T : Type) (cf : K -> Sg -> T)
+  (epochs : K -> list Sg -> list T) (dK : K) (dS : Sg) (dT : T)
+  (o : gobj) (fits : list gfit) (sigma : list nat) (spec : kwspec) (sigs : list (list Sg)) (n1 : nat),
+  Permutation sigma (seq 0 (length (concat sigs))) ->
+  (forall row, In row sigs -> length row = n1) ->
+  exists dfs models,
+    gobj_run cf epochs dK dS dT o (fits ++ [Fit3 2 sigma spec sigs n1]) = Fitted3 dfs models /\
+    length dfs = length sigs /\ length models = length sigs /\
+    forall i, i < length sigs ->
+      length (nth i dfs []) = n1 /\ length (nth i models []) = n1 /\
+      forall j, j < n1 ->
+        nth j (nth i dfs []) dT = cf (kw_for dK spec (i * n1 + j)) (nth j (nth i sigs []) dS) /\
+        nth j (nth i models []) (dT, dS) =
+        (cf (kw_for dK spec (i * n1 + j)) (nth j (nth i sigs []) dS), nth j (nth i sigs []) dS).
+Proof. exact @gobj_last_fit_3d_axis01. Qed.
+Print Assumptions C12_object_after_any_fits_axis01.
+
+Theorem C12_object_after_any_fits_axis0 : forall (K Sg T : Type) (cf : K -> Sg -> T)
+  (epochs : K -> list Sg -> list T) (dK : K) (dS : Sg) (dT : T)
+  (o : gobj) (fits : list gfit) (sigma : list nat) (spec : kwspec) (sigs : list (list Sg)) (n1 : nat),
+  Permutation sigma (seq 0 (length sigs)) ->
+  (forall row, In row sigs -> length row = n1) ->
+  (forall k sl, length (epochs k sl) = length sl) ->
+  exists dfs models,
+    gobj_run cf epochs dK dS dT o (fits ++ [Fit3 0 sigma spec sigs n1]) = Fitted3 dfs models /\
+    length dfs = length sigs /\ length models = length sigs /\
+    forall i, i < length sigs ->
+      length (nth i dfs []) = n1 /\ length (nth i models []) = n1 /\
+      nth i dfs [] = epochs (kw_for dK spec i) (nth i sigs []) /\
+      forall j, j < n1 ->
+        nth j (nth i models []) (dT, dS) =
+        (nth j (epochs (kw_for dK spec i) (nth i sigs [])) dT, nth j (nth i sigs []) dS).
+Proof. exact @gobj_last_fit_3d_axis0. Qed.
+Print Assumptions C12_object_after_any_fits_axis0.
+
+Theorem C12_object_after_any_fits_axis1 : forall (K Sg T : Type) (cf : K -> Sg -> T)
+  (epochs : K -> list Sg -> list T) (dK : K) (dS : Sg) (dT : T)
+  (o : gobj) (fits : list gfit) (sigma : list nat) (spec : kwspec) (sigs : list (list Sg)) (n1 : nat),
+  Permutation sigma (seq 0 n1) ->
+  (forall row, In row sigs -> length row = n1) ->
+  (forall k sl, length (epochs k sl) = length sl) ->
+  exists dfs models,
+    gobj_run cf epochs dK dS dT o (fits ++ [Fit3 1 sigma spec sigs n1]) = Fitted3 dfs models /\
+    length dfs = length sigs /\ length models = length sigs /\
+    forall i, i < length sigs ->
+      length (nth i dfs []) = n1 /\ length (nth i models []) = n1 /\
+      forall j, j < n1 ->
+        nth j (nth i dfs []) dT =
+        nth i (epochs (kw_for dK spec j) (map (fun row => nth j row dS) sigs)) dT /\
+        nth j (nth i models []) (dT, dS) =
+        (nth i (epochs (kw_for dK spec j) (map (fun row => nth j row dS) sigs)) dT,
+         nth j (nth i sigs []) dS).
+Proof. exact @gobj_last_fit_3d_axis1. Qed.
+Print Assumptions C12_object_after_any_fits_axis1.
+
 (* Legacy: the back-indexing used before the repair (df_2d[i + j]) is refuted on a 2 x 2 array *)
 Theorem C12_legacy_index_refuted :
   nth 0 (nth 1 (group3d_axis01_legacy id_cf 0 0 (0, 0, 0) [0; 1; 2; 3] (KwOne 7) (sig_ids 2 2) 2) []) (0, 0, 0)
